@@ -39,7 +39,17 @@ MANIFEST = dict(
           "near-optimal` is refuted with a witness and reproduced on the real wda), cocob's L >= |g| and reward >= 0, the guard of "
           "the division by |g|. Tie: 800 (thorough 16000) whole runs of the real sgm / cocob / sda / wda replayed bit for bit. "
           "Targeted family T4 (repo commit 31bf93f): rqb / fpba on convex functions with max_evals 10..20 -- the budget running out "
-          "inside the curve search must not resurrect the status of the previous call (direct oracle worse-than-start)."),
+          "inside the curve search must not resurrect the status of the previous call (direct oracle worse-than-start). "
+          "Extension 3 (stage bodies2): the whole do_minimize of ellipsoid.cpp, osga.cpp, universal.cpp (pgm, dgm, fgm) and asga.cpp "
+          "(asga2, asga4) is inside the model (body2_run: a pass of the budget loop is a program of evaluation requests with the capped "
+          "inner backtracking loop; scalar and element-wise code bit-exact; Eigen reductions, libm exp, gHg and the n-D ellipsoid update "
+          "are oracle inputs; the reference of that update is C03's en_step, imported) and, for every oracle / parameter / budget: "
+          "termination with fcalls + gcalls <= max(2, max_evals - 1 + B) for the PROVED per-pass bound B (2 ellipsoid, 3 osga, 2/3/4 x "
+          "lsearch_max_iters pgm/dgm/fgm, 4 x lsearch_max_iters asga -- which parameter caps the inner loop is translated from the source: "
+          "seeded change C02/3), B <= 400 <= 1100 + 8 dim for lsearch_max_iters <= 100 (not on asga's whole domain: refuted), returned "
+          "point / value (sub-gradient except osga) is an oracle answer, fx <= f(x0), status facts, what `converged` means per body, the "
+          "guard of the ellipsoid's division by sqrt(gHg) (Flocq), how the inner loops end, osga's alpha > 0 refuted (exp(-kappa) = 0). Tie: "
+          "1050 (thorough 21000) whole runs of the seven real solvers replayed bit for bit."),
     note=("Coq kernel; Flocq + FloatAxioms (binary64 = PrimFloat); translator (31 kernels); extraction (ExtrOcamlBasic + "
           "ExtrOCamlFloats); harness + OCaml driver; NANO_VERIF hooks in solver.cpp/augmented.cpp/random.cpp (add-only); "
           "Eigen reductions are inputs, only max-abs / scalar code is recomputed bit-exactly; NDEBUG build. Extension lsloop: "
@@ -48,7 +58,11 @@ MANIFEST = dict(
           "model, searched on the implementation. Extension bodies: + 17 kernels (group c02b: decisions of sgm.cpp / cocob.cpp / "
           "pdsgm.cpp), harness c02_bodies.cpp, driver c02b_driver.ml (tanh / pow of the OCaml runtime = the same libm); lpNorm<2> "
           "recomputed by the harness with the library's expression (cross-checked against long double); Eigen's lpNorm<Infinity> = "
-          "max-abs on NaN-free vectors; the dead members of pdsgm's model_t (m_Sk, m_xk1h, m_lgx) are not modelled."),
+          "max-abs on NaN-free vectors; the dead members of pdsgm's model_t (m_Sk, m_xk1h, m_lgx) are not modelled. Extension bodies2: "
+          "+ 35 kernels (group c02c), harness c02_bodies2.cpp (+ values hook ev_ellipsoid_update), driver c02c_driver.ml: dot / squaredNorm "
+          "/ lpNorm<2> are answered in Eigen's summation order (3.4, SSE2), tied to the library by DOT lines on every run; exp / sqrt of the "
+          "OCaml runtime; the n-D ellipsoid update and gHg are taken from the hook and compared with C03_Defs.en_step over binary64 "
+          "within 1e-3; asga with lsearch_max_iters <= 0 (outside its domain) is not modelled faithfully."),
     technique="Coq proof over a translated+extracted binary64 model, differential correspondence, trace acceptance, direct oracle with a recording function",
     design="DESIGN.md section 2, C02")
 
@@ -80,6 +94,11 @@ def setup():
     vlib.build_harness("c02_bodies", "rel")
     try:
         vlib.build_ocaml("c02b_driver", "c02b_model.ml", "c02b_driver.ml", floats=True)
+    except (vlib.CheckError, OSError):
+        pass
+    vlib.build_harness("c02_bodies2", "rel")
+    try:
+        vlib.build_ocaml("c02c_driver", "c02c_model.ml", "c02c_driver.ml", floats=True)
     except (vlib.CheckError, OSError):
         pass
 
@@ -503,18 +522,152 @@ def stage_bodies(r, cres):
     }
 
 
+B2_HARNESS = "c02_bodies2"
+
+
+def _b2_block(path, rid, limit=60):
+    out, on = [], False
+    try:
+        with open(path) as f:
+            for l in f:
+                l = l.rstrip("\n")
+                t = l.split(" ", 2)
+                if len(t) > 1 and t[1] == rid and (t[0] in ("CRUN", "CEV", "CEL", "CDN", "CRET", "CEND", "FAIL")):
+                    on = True
+                    out.append(l[:700])
+                    if t[0] == "CEND":
+                        break
+                elif on and t[0] == "CRUN":
+                    break
+    except OSError:
+        pass
+    if len(out) > limit:
+        out = out[:14] + ["... (%d lines omitted)" % (len(out) - 40)] + out[-26:]
+    return out
+
+
+def stage_bodies2(r, cres):
+    import shlex
+    exe = vlib.build_harness(B2_HARNESS, "rel")
+    drv = None
+    try:
+        drv = vlib.build_ocaml("c02c_driver", "c02c_model.ml", "c02c_driver.ml", floats=True)
+    except (vlib.CheckError, OSError):
+        if cres["ok"]:
+            raise
+    rundir = os.path.join(vlib.WORK, "c02c")
+    os.makedirs(rundir, exist_ok=True)
+    out_path = os.path.join(rundir, "run-%d-%s.txt" % (r.seed, r.tier))
+    rc, err = vlib.sh("%s %s > %s" % (shlex.quote(exe), shlex.quote(r.tier), shlex.quote(out_path)), timeout=3000,
+                      env={"VERIF_SEED": str(r.seed)})
+    replay_cmd = "VERIF_SEED=%d %s %s" % (r.seed, exe, r.tier)
+    fails, done, hist, nruns = [], "", "", 0
+    with open(out_path) as f:
+        for l in f:
+            if l.startswith("FAIL "):
+                fails.append(l.rstrip("\n"))
+            elif l.startswith("DONE "):
+                done = l.strip()
+            elif l.startswith("CHIST"):
+                hist = l.strip()
+            elif l.startswith("CRUN "):
+                nruns += 1
+    if rc != 0 or not done:
+        r.violation("bodies2-crash", {"kind": "implementation crashed / did not terminate in a whole solver run (exit %s)" % rc,
+                                     "tail": err[-1500:], "replay_cmd": replay_cmd}, fingerprint="bodies2-crash")
+    seen = set()
+    for l in fails:
+        m = re.match(r"FAIL (\d+) (\S+)", l)
+        rid, clause = (m.group(1), m.group(2)) if m else ("?", "?")
+        if clause in seen or len(seen) >= 4:
+            continue
+        seen.add(clause)
+        blk = _b2_block(out_path, rid)
+        solver = blk[0].split(" ")[2] if blk else "?"
+        r.violation("bodies2-impl-%s" % re.sub(r"[^A-Za-z0-9_.-]", "_", clause[:40]), {"kind": "direct property check failed on a whole run of the implementation",
+                                                     "clause": clause, "what": l[:600], "run": blk,
+                                                     "replay_cmd": replay_cmd + " " + rid},
+                    fingerprint="bodies2:%s:%s" % (solver, clause))
+    stats, dhist, mism, pf = {}, "", [], []
+    if drv:
+        rc2, mout = vlib.sh("%s < %s" % (shlex.quote(drv), shlex.quote(out_path)), timeout=3000)
+        for l in mout.split("\n"):
+            if l.startswith("MISMATCH"):
+                mism.append(l)
+            elif l.startswith("PROPFAIL"):
+                pf.append(l)
+            elif l.startswith("HIST "):
+                dhist = l[5:]
+            elif l.startswith("MODEL-DONE"):
+                stats = {k: int(v) for k, v in re.findall(r"(\w+)=(\d+)", l)}
+        if rc2 != 0 or not stats.get("checked"):
+            r.violation("bodies2-driver", {"kind": "model driver failed", "out": mout[-2000:]}, no_input=True)
+        for i, l in enumerate(pf[:3]):
+            m = re.search(r"RUN (\d+)", l)
+            r.violation("bodies2-prop-%d" % i, {"kind": "conclusion of a C02_bodies2 theorem fails on the recorded run of the implementation",
+                                               "what": l[:1500], "run": _b2_block(out_path, m.group(1)) if m else [],
+                                               "replay_cmd": replay_cmd + (" " + m.group(1) if m else "")})
+        for i, l in enumerate(mism[:3]):
+            m = re.search(r"RUN (\d+)", l)
+            r.violation("bodies2-corr-%d" % i, {"kind": "the extracted body2_run and the real solver disagree on a whole run",
+                                               "what": l[:1500], "run": _b2_block(out_path, m.group(1)) if m else [],
+                                               "replay_cmd": replay_cmd + (" " + m.group(1) if m else "")})
+    samples = []
+    with open(out_path) as f:
+        for l in f:
+            if l.startswith(("CRUN 8 ", "CEV 8 0 ", "CEV 8 1 ", "CDN 8 0 ", "CRET 8 ")):
+                samples.append(l.strip()[:260])
+    ellref = ""
+    if drv:
+        m = re.search(r"ELLREF worst_relative_deviation=(\S+)", mout)
+        ellref = m.group(1) if m else ""
+    return {
+        "_evaluations": stats.get("checked", 0),
+        "_distinct": stats.get("passes", 0),
+        "_trusted": ["bodies2: harness/c02_bodies2.cpp (recording function_t, done() hooks, values hook ev_ellipsoid_update), "
+                     "ocaml/c02c_driver.ml (Eigen's summation order for dot / squaredNorm / lpNorm<2>, tied to the library by the DOT lines of "
+                     "every run; libm exp of the OCaml runtime), extraction Extract_C02C.v; 35 translated kernels of ellipsoid.cpp / osga.cpp / "
+                     "universal.cpp / asga.cpp (group c02c); C03_Defs.en_step (imported) as the reference of the n-D ellipsoid update"],
+        "bodies2_runs_replayed": stats.get("checked", 0),
+        "bodies2_runs": nruns,
+        "bodies2_evaluations_matched_bit_for_bit": stats.get("evaluations", 0),
+        "bodies2_passes": stats.get("passes", 0),
+        "bodies2_mismatches": len(mism),
+        "bodies2_theorem_mirror_failures": len(pf),
+        "bodies2_impl_direct_failures": len(fails),
+        "bodies2_ambiguous_skipped": stats.get("ambiguous_skipped", 0),
+        "bodies2_reductions_answered_in_eigen_order": stats.get("dots", 0),
+        "bodies2_dot_calibration_lines": stats.get("dot_lines", 0),
+        "bodies2_exp_calls": stats.get("exp_calls", 0),
+        "bodies2_ellipsoid_updates": stats.get("ellipsoid_updates", 0),
+        "bodies2_ellipsoid_updates_checked_against_C03_en_step": stats.get("ellipsoid_updates_checked_against_C03", 0),
+        "bodies2_ellipsoid_worst_relative_deviation_from_C03_en_step": ellref,
+        "bodies2_harness_histogram": hist[6:] if hist else "",
+        "bodies2_model_histogram": dhist,
+        "bodies2_rule": ("whole runs: solver in {ellipsoid, osga, pgm, dgm, fgm, asga2, asga4} (1/7 each) x objective in {48 registered functions, "
+                         "random quadratics, max-of-affine, scaled |x - c|_1, 1-D adversarial (NaN wall, oscillating, overflow, steep kink, plateau, "
+                         "barrier)} optionally restricted to a box (NaN / +inf / infinite sub-gradient / -inf outside) or scaled by 1e-220..1e-150 / "
+                         "1e100..1e300, optional strong convexity parameter x dims {1 (1/4 of the ellipsoid runs: bisection branch),2,3,4,8,16} x x0 "
+                         "(random, 0, quarter-integers, 1) x epsilon (1e-300..1e-1) x max_evals (10..14, 10..40, 40..160, 20..400/2000) x patience x "
+                         "R (1e160, 1e-300, 10, 1e-3..1e3) / osga lambda, alpha_max, kappas (kappa up to 1e4 kappa': exp(-kappa) = 0) / L0 (1, 1e-300, "
+                         "1e300, 1e-12..1e4), gamma1, gamma2, lsearch_max_iters (10, 100, random; patience and max_evals differ from it); "
+                         "distinct = passes replayed"),
+        "bodies2_samples": samples[:6],
+    }
+
+
 def stage_extensions(r, cres):
-    """both extension stages; their private keys are merged"""
+    """the three extension stages; their private keys are merged"""
     a = stage_lsloop(r, cres)
-    b = stage_bodies(r, cres)
     out = dict(a)
-    for k, v in b.items():
-        if k in ("_evaluations", "_distinct"):
-            out[k] = out.get(k, 0) + v
-        elif k == "_trusted":
-            out[k] = list(out.get(k, [])) + list(v)
-        else:
-            out[k] = v
+    for b in (stage_bodies(r, cres), stage_bodies2(r, cres)):
+        for k, v in b.items():
+            if k in ("_evaluations", "_distinct"):
+                out[k] = out.get(k, 0) + v
+            elif k == "_trusted":
+                out[k] = list(out.get(k, [])) + list(v)
+            else:
+                out[k] = v
     return out
 
 
@@ -522,7 +675,8 @@ def run(tier, replay=None):
     return run_shared(
         "C02", "c02", tier, [],
         ["termination of minimize() (every run must return; a hang is a crash violation) -- proved for the line-search loop (lsloop) and "
-         "for sgm / cocob / sda / wda (bodies); searched for osga, asga*, ellipsoid, pgm/dgm/fgm, rqb, fpba*, gs*, the constrained solvers",
+         "for sgm / cocob / sda / wda (bodies) and for ellipsoid / osga / pgm / dgm / fgm / asga2 / asga4 (bodies2); searched for rqb, fpba*, gs*, "
+         "the constrained solvers",
          "reported value = f(returned point) on the real solvers (recording wrapper: the returned (x, fx[, gx]) must be one of "
          "the evaluated triples bit for bit, and agree with a fresh evaluation within 1e-9 relative) -- the theorem covers "
          "clients that only store evaluated triples; that every solver body is such a client is searched",
@@ -539,5 +693,7 @@ def run(tier, replay=None):
          "lsloop: gx.dot(descent) is taken from the run (Eigen reduction); x + t*d, -gx, the line searches, done() are bit-exact",
          "bodies: g.lpNorm<2>() as recomputed by the harness with the same Eigen expression is the value the library read (validated by "
          "the bit-exact next evaluation point); std::tanh / std::pow of the OCaml runtime are the libm functions the library calls",
-         "bodies: max_evals >= 10 and patience >= 10 (registered domains) in the runs; the theorems hold for every integer"],
-        pre_coq=_pre_coq_lsloop, coq_targets=["theories/Extract_C02LS.vo", "theories/Extract_C02B.vo"], stage=stage_extensions)
+         "bodies: max_evals >= 10 and patience >= 10 (registered domains) in the runs; the theorems hold for every integer",
+         "bodies2: Eigen's reductions sum in the order the driver implements (checked against the library by 57 DOT lines per run); "
+         "asga2 / asga4: lsearch_max_iters >= 1 (registered domain [10, 1000])"],
+        pre_coq=_pre_coq_lsloop, coq_targets=["theories/Extract_C02LS.vo", "theories/Extract_C02B.vo", "theories/Extract_C02C.vo"], stage=stage_extensions)
